@@ -113,7 +113,11 @@ func accProgramByName(n string) *accProgram {
 	return nil
 }
 
-func runAccum(prog *accProgram, samples []string) (res result) {
+func runAccum(prog *accProgram, samples []string) result {
+	return runAccumAt(prog, samples, everyPrefix)
+}
+
+func runAccumAt(prog *accProgram, samples []string, cp checkAt) (res result) {
 	where := "NewAccumulatingGroup"
 	var impl *aggregation.AccumulatingGroup
 	ref := map[string][]string{} // group key -> column values
@@ -175,6 +179,9 @@ func runAccum(prog *accProgram, samples []string) (res result) {
 				for ci, c := range prog.cols {
 					row[ci] = c.f(row[ci], parts, lookup)
 				}
+			}
+			if !cp.at(i+1, len(samples)) {
+				return nil
 			}
 			return checkAccum(impl, prog, ref, &where, &res.state, &res.orderKey)
 		})
